@@ -388,7 +388,19 @@ fn body(space: Space) -> impl Fn(&Ch) -> Run + Sync + Send {
     let clobber = w.has_source_phase_clobber();
     let mut outcomes = vec![];
     for kind in kind_all() {
-      for (skip_dynamic, is_dynamic_root, unstable, rich, seeded) in [(false, false, true, false, false), (true, false, true, false, false), (false, true, false, false, false), (false, false, true, true, false), (false, false, true, false, true)] {
+      // every combination of the three boolean build options under default
+      // resolution, plus the rich resolver configuration and the lockfile-seeded one
+      let mut option_sets: Vec<(bool, bool, bool, bool, bool)> = vec![];
+      for skip_dynamic in [false, true] {
+        for is_dynamic_root in [false, true] {
+          for unstable in [true, false] {
+            option_sets.push((skip_dynamic, is_dynamic_root, unstable, false, false));
+          }
+        }
+      }
+      option_sets.push((false, false, true, true, false));
+      option_sets.push((false, false, true, false, true));
+      for (skip_dynamic, is_dynamic_root, unstable, rich, seeded) in option_sets {
         // the rich configuration needs an attribute-less last specifier (the
         // configured import is an attribute-less import of it)
         let n = w.kinds.len();
@@ -715,7 +727,7 @@ pub fn prop(tier: Tier) -> Prop {
   };
   Prop {
     id: "C01",
-    rule: "state = world (entry kinds x attribute per target x import edges with form and target x local/remote x x-typescript-types header x 1..2 roots); per world 3 graph kinds x 5 option sets (default; skip_dynamic_deps; dynamic root without unstable text/bytes; resolver (bare-specifier map, resolve_types table, default JSX import source and types source) + npm resolver + jsr passthrough + configured type import; default with the reachable redirects already in the graph through fill_from_lockfile) are built. Oracle: (1) each JS/TS module's recorded dependencies (specifier text -> code target, type target, is_dynamic, attribute, import kinds) equal what reference rules derive from the renderer's record of the statements it wrote; (2) slots + redirect sources = least closure of the roots under the follow rules of the kind/options, computed over the reference dependencies; (3) one load per specifier (asset->module upgrade excepted), every loader redirect recorded; (4) entry kind where the world determines it. Non-trivial = world with an edge of a non-default form.".into(),
+    rule: "state = world (entry kinds x attribute per target x import edges with form and target x local/remote x x-typescript-types header x 1..2 roots); per world 3 graph kinds x 10 option sets (all 8 combinations of skip_dynamic_deps x is_dynamic x unstable text/bytes imports under default resolution; resolver (bare-specifier map, resolve_types table, default JSX import source and types source) + npm resolver + jsr passthrough + configured type import; default with the reachable redirects already in the graph through fill_from_lockfile) are built. Oracle: (1) each JS/TS module's recorded dependencies (specifier text -> code target, type target, is_dynamic, attribute, import kinds) equal what reference rules derive from the renderer's record of the statements it wrote; (2) slots + redirect sources = least closure of the roots under the follow rules of the kind/options, computed over the reference dependencies; (3) one load per specifier (asset->module upgrade excepted), every loader redirect recorded; (4) entry kind where the world determines it. Non-trivial = world with an edge of a non-default form.".into(),
     assumptions: vec![
       "the fourth option set has a resolver (bare-specifier map, resolve_types table for untyped modules), an npm resolver, jsr passthrough and one configured type import; the other three use default resolution".into(),
       "same-attribute proviso enforced by the generator (also through redirects, roots, types header, @ts-types pragma); at most one self-types / jsx pragma per module".into(),
